@@ -162,17 +162,37 @@ def queue_shape(ctx, rule):
     sn, sc = starts[0]
     # the operations run only after the decorated function (and with it the
     # main transaction) completed normally, whenever something was queued
-    facts = [(norm(U.canon_expr(d.node, a)), t)
-             for a, t in U.guard_atoms(cfg, sn)]
+    from mstatic.rules import dt
+    qv = [k for k, v in U._single_defs(d.node).items()
+          if isinstance(v, ast.Call) and U.call_name(v) == '_get_queue']
+    if len(qv) != 1:
+        raise AnalysisError('post_tx_queue.run: queue variable')
+    tb = dt.Table(ctx, d, [(qv[0], ((), ('op',)))],
+                  inline_exclude=(qv[0],))
+    tsn = [n for n, c in tb.cfg.calls(lambda c: c is sc)][0]
+    reach = tb.inputs_at(tsn)
+    facts = sorted(reach, key=repr)
+    def _transfers(n):
+        st = None
+        for s_, _k in n.succ:
+            st = getattr(s_, 'stmt', None) or st
+        return not isinstance(st, ast.If) or any(
+            isinstance(x, (ast.Return, ast.Raise, ast.Break, ast.Continue))
+            for b in st.body + st.orelse for x in ast.walk(b))
+    und = [n for n in tb.cfg.nodes if n.kind == 'test' and tb.IN[n.id] and
+           _transfers(n) and
+           any(tb.ctx.sd.truth(tb.ev(n.ast, v)) is dt.UNK
+               for v in tb.IN[n.id]) and tb.cfg.paths_between(n, tsn)]
     rule.check(cfg.dominates(bn, sn) and
                not _in_try_part(d.node, sc, 'handlers') and
                not _in_try_part(d.node, sc, 'finalbody') and
-               facts == [('_get_queue()', True)],
+               reach == {(('op',),)} and not und,
                ctx.construct(d, sc, extra='run what was queued, after a '
                              'normal return only'),
                'the queued operations are not started exactly when the '
                'decorated function returned normally with a non-empty queue '
-               '(facts: %s)' % facts, ctx.loc(d, sc))
+               '(queue values reaching the start: %s; tests on other things: '
+               '%s)' % (facts, [norm(n.ast) for n in und]), ctx.loc(d, sc))
     # the queue that is processed is the one read before it is cleared
     th = [c for _n, c in cfg.calls(lambda c: U.call_name(c) == 'Thread')]
     tgt = U.kwarg(th[0], 'target') if th else None
